@@ -525,7 +525,7 @@ func c07R8(c *Ctx, p *Prog, ctor *ssa.Function, pans []constSet) {
 				continue
 			}
 			found = true
-			last := ret.Results[len(ret.Results)-1]
+			last := retLast(ret)
 			if !isNonNilValue(last) {
 				ok = false
 			}
@@ -848,7 +848,7 @@ func c07R6(c *Ctx, p *Prog) {
 				for _, r2 := range *ex.Referrers() {
 					if ifi, ok := r2.(*ssa.If); ok {
 						fb := ifi.Block().Succs[1]
-						if ret, ok := fb.Instrs[len(fb.Instrs)-1].(*ssa.Return); ok && len(ret.Results) > 0 && isNonNilValue(ret.Results[len(ret.Results)-1]) {
+						if ret, ok := fb.Instrs[len(fb.Instrs)-1].(*ssa.Return); ok && len(ret.Results) > 0 && isNonNilValue(retLast(ret)) {
 							okb = true
 						}
 					}
